@@ -369,7 +369,7 @@ func handleExtraFieldList(p *SelectPlan, stmt *ast.SelectStmt) {
 	for i := 0; i < len(p.groupByColumn); i++ {
 		p.groupByColumn[i] -= deleteNum
 		currColumnIndex := p.originColumnCount + i - deleteNum
-		field, isColumnExpr := stmt.Fields.Fields[currColumnIndex].Expr.(*ast.ColumnNameExpr)
+		field, isColumnExpr := getColumnNameExprOfByField(stmt.Fields.Fields[currColumnIndex].Expr)
 		if !isColumnExpr {
 			continue
 		}
@@ -401,7 +401,7 @@ func handleExtraFieldList(p *SelectPlan, stmt *ast.SelectStmt) {
 			}
 			continue
 		}
-		field, isColumnExpr := stmt.Fields.Fields[currColumnIndex].Expr.(*ast.ColumnNameExpr)
+		field, isColumnExpr := getColumnNameExprOfByField(stmt.Fields.Fields[currColumnIndex].Expr)
 		if !isColumnExpr {
 			continue
 		}
@@ -460,15 +460,29 @@ func createSelectFieldFromByItem(p *SelectPlan, item *ast.ByItem) (*ast.SelectFi
 		return nil, err
 	}
 
-	if need {
-		decorator := CreateColumnNameExprDecorator(columnExpr, rule, isAlias, p.GetRouteResult())
-		item.Expr = decorator
-	}
-
 	ret := &ast.SelectField{
 		Expr: columnExpr,
 	}
+
+	if need {
+		decorator := CreateColumnNameExprDecorator(columnExpr, rule, isAlias, p.GetRouteResult())
+		item.Expr = decorator
+		// the field appended for the item names the same column of the same sub table / database
+		ret.Expr = decorator
+	}
 	return ret, nil
+}
+
+// getColumnNameExprOfByField returns the column of a field appended for a GROUP BY / ORDER BY item,
+// decorated or not
+func getColumnNameExprOfByField(expr ast.ExprNode) (*ast.ColumnNameExpr, bool) {
+	switch e := expr.(type) {
+	case *ast.ColumnNameExpr:
+		return e, true
+	case *ColumnNameExprDecorator:
+		return e.ColumnNameExpr, true
+	}
+	return nil, false
 }
 
 // 处理from table和join on部分
